@@ -90,12 +90,23 @@ class Gen:
 
     def _index(self):
         r = self.rng.random()
-        if r < 0.6:
+        if r < 0.5:
             return int_lit(self.rng.randrange(0, 4))
         nums = [n for n, t in self.schema.items() if t == NUM]
+        if r < 0.62 and self.aliases:
+            # a number field of an aliased earlier message
+            a = self.rng.choice(self.aliases)
+            anums = [n for n, t in self.alias_schemas.get(a, self.schema).items() if t == NUM]
+            if anums:
+                ref = ('field', ('var', a), self.rng.choice(anums))
+                return ref if self.rng.random() < 0.6 else ('bin', '+', ref, int_lit(1))
+        if r < 0.68:
+            arrs = [n for n, t in self.schema.items() if t == ('arr', NUM)]
+            if arrs:
+                return ('index', ('field', ('this',), self.rng.choice(arrs)), int_lit(self.rng.randrange(0, 4)))
         if not nums:
             return int_lit(self.rng.randrange(0, 4))
-        if r < 0.8:
+        if r < 0.85:
             return ('field', ('this',), 'x' if 'x' in nums else self.rng.choice(nums))
         return ('bin', '+', ('field', ('this',), 'y' if 'y' in nums else self.rng.choice(nums)), int_lit(1))
 
